@@ -378,7 +378,7 @@ func (g *vcgen) typeFacts(term string, t types.Type, alloc string) string {
 	case *types.Interface:
 		return fmt.Sprintf("(and (<= (ival %s) %s) (>= (itag %s) 0) (=> (= (itag %s) 0) (= (ival %s) 0)))", term, alloc, term, term, term)
 	case *types.Slice:
-		return fmt.Sprintf("(and (<= (sarr %s) %s) (<= 0 (soff %s)) (<= 0 (slen %s)) (<= (slen %s) (scap %s)) (=> (= (sarr %s) 0) (= (scap %s) 0)))", term, alloc, term, term, term, term, term, term)
+		return fmt.Sprintf("(and (<= (sarr %s) %s) (<= 0 (soff %s)) (<= 0 (slen %s)) (<= (slen %s) (scap %s)) (<= (scap %s) 281474976710656) (=> (= (sarr %s) 0) (= (scap %s) 0)))", term, alloc, term, term, term, term, term, term, term)
 	case *types.Struct:
 		if isDecomposedStruct(t) {
 			var fs []string
@@ -523,6 +523,18 @@ func (g *vcgen) binop(x *ssa.BinOp) string {
 	a, b := g.val(x.X), g.val(x.Y)
 	t := x.X.Type()
 	srt := g.s.sortOf(t)
+	if srt == "Slice" && (x.Op == token.EQL || x.Op == token.NEQ) {
+		// slices are only comparable with nil: nil-ness is the array pointer being nil
+		other := a
+		if c, ok := x.X.(*ssa.Const); ok && c.Value == nil {
+			other = b
+		}
+		t := fmt.Sprintf("(= (sarr %s) 0)", other)
+		if x.Op == token.NEQ {
+			return "(not " + t + ")"
+		}
+		return t
+	}
 	switch x.Op {
 	case token.EQL:
 		return fmt.Sprintf("(= %s %s)", a, b)
